@@ -242,6 +242,15 @@ func (r *Run) assertCond(c BoolV, id string) {
 	}
 }
 
+func fieldIndexOpt(t types.Type, name string) (idx int) {
+	defer func() {
+		if recover() != nil {
+			idx = -1
+		}
+	}()
+	return fieldIndex(t, name)
+}
+
 func fieldIndex(t types.Type, name string) int {
 	if p, ok := t.Underlying().(*types.Pointer); ok {
 		t = p.Elem()
@@ -323,9 +332,11 @@ func (r *Run) killCoros() {
 // ---- scanner / writer host objects ----
 
 type scannerObj struct {
-	lines []Value
-	idx   int
-	err   Value
+	lines  []Value
+	idx    int
+	err    Value
+	rd     Struct // the harness reader (its pos field mirrors idx)
+	posIdx int
 }
 
 var harnessPkgs = []string{
@@ -540,7 +551,7 @@ func (e *Engine) registerIntrinsics() {
 		rd := a[0].(Iface)
 		if pp, ok := rd.V.(Ptr); ok && pp != nil {
 			if sr, ok := (*pp).(*strReaderObj); ok {
-				sc := &scannerObj{lines: splitLines(sr.s), err: Iface{}}
+				sc := &scannerObj{lines: splitLines(sr.s), err: Iface{}, posIdx: -1}
 				slot := new(Value)
 				*slot = sc
 				return Ptr(slot)
@@ -551,15 +562,24 @@ func (e *Engine) registerIntrinsics() {
 			panic(unsupported("bufio.NewScanner on %v", rd.T))
 		}
 		st := (*p).(Struct)
-		sc := &scannerObj{lines: st[fieldIndex(rd.T, "lines")].(SliceV).Data, err: st[fieldIndex(rd.T, "err")]}
+		sc := &scannerObj{lines: st[fieldIndex(rd.T, "lines")].(SliceV).Data, err: st[fieldIndex(rd.T, "err")], rd: st, posIdx: fieldIndexOpt(rd.T, "pos")}
 		slot := new(Value)
 		*slot = sc
 		return Ptr(slot)
 	}
 	in["(*bufio.Scanner).Scan"] = func(r *Run, fr *frame, a []Value) Value {
 		sc := (*a[0].(Ptr)).(*scannerObj)
+		if r.cs != nil && strings.Contains(r.eng.sched, "ryield") {
+			// read-yield policies: every row read is a scheduling point (and an instant at which the context may be
+			// cancelled): a cooperative stand-in for a reader that delivers its rows over time
+			r.event()
+			r.yield()
+		}
 		if sc.idx < len(sc.lines) {
 			sc.idx++
+			if sc.rd != nil && sc.posIdx >= 0 {
+				sc.rd[sc.posIdx] = IntV{C: uint64(sc.idx)}
+			}
 			return BoolV{C: true}
 		}
 		sc.idx = len(sc.lines) + 1
